@@ -583,6 +583,55 @@ def one_key(P, R, rule='C20.MPT.7'):
     R.floor(rule, 1)
 
 
+def loader_details(P, R):
+    """Three facts the order of construction and post-initialisation rests on."""
+    # (TAB.3) a module is opened with lazy binding and global symbols: what it calls in the modules it depends on is
+    # resolved when first used - those modules are loaded by its constructor, after the dlopen() - and what it exports is
+    # visible to the modules that depend on it
+    n = 0
+    for f in P.unit_fns(P.need_fn('module_load').unit):
+        for s in f.calls('dlopen'):
+            a = s.ev['args']
+            if len(a) < 2 or const_of(a[0]) == 0:
+                continue
+            fl = const_of(a[1])
+            if fl is None and is_var(a[1]):
+                sd = f.single_def(a[1]['name'])
+                fl = const_of(sd[1]) if sd else None
+            n += 1
+            R.ob('C20.TAB.3', isinstance(fl, int) and (fl & 1) and not (fl & 2) and (fl & 0x100), s,
+                 'modules are opened with lazy binding and global symbols (flags %s; RTLD_LAZY=1, RTLD_NOW=2, RTLD_GLOBAL=0x100)' % (hex(fl) if isinstance(fl, int) else sx(a[1])), key='dlopen-flags:%s' % f.name)
+    R.floor('C20.TAB.3', 2, 'dlopen calls of the loader')
+    # (WIRE.4) the configured list is handed to the loader as a whole, once: the post-initialisation walk that follows the
+    # loading sees every module and every edge - also the edges a module listed later declares against one listed earlier
+    ll = P.need_fn('module_load_list')
+    calls = [c for c in P.callers(ll, may=True) if not c.fn.unit.startswith('tests/')]
+    for c in calls:
+        f = c.fn
+        in_loop = c.bid in f.reach([e.dst for e in f.out[c.bid]])
+        a = c.ev['args'][0] if c.ev['args'] else None
+        rv = root_var(a) if a is not None else None
+        whole = rv is not None and rv.get('sc') not in ('local', 'param')
+        R.ob('C20.WIRE.4', len(calls) == 1 and not in_loop and whole, c, 'the configured module list is handed to the loader once, as a whole (%s%s)' % (sx(a), ', inside a loop' if in_loop else ''), key='load-list-once')
+    R.floor('C20.WIRE.4', 1, 'calls of the list loader')
+    # (GRD.6) "is a back-end" is a count of declarations, used as a truth value: it is only ever tested against zero
+    m = 0
+    for f in P.unit_fns(P.need_fn('module_load').unit):
+        for bid in f.reachable_blocks():
+            for e in f.out[bid]:
+                r = rules.edge_rel(e)
+                if r and e.label == 'true' and any(isinstance(x, dict) and x.get('k') == 'mem' and x.get('field') == 'is_backend' for side in (r[0], r[2]) if isinstance(side, dict) for x in walk(side)):
+                    m += 1
+                    ok = is_field(r[0], 'is_backend') and const_of(r[2]) == 0 and r[1] in ('==', '!=', '>')
+                    R.ob('C20.GRD.6', ok, P.relloc((f.blocks[bid].get('term') or {}).get('loc', '?')), 'the back-end count is tested as a truth value (%s)' % rel_str_((r[0], r[1], r[2])), key='backend-truth:%s' % f.name)
+                    R.obligations[-1]['function'] = f.name
+    R.floor('C20.GRD.6', 1, 'tests of the back-end count')
+
+
+def rel_str_(r):
+    return '%s %s %s' % (sx(r[0]), r[1], sx(r[2]))
+
+
 def names_nonempty(P, R, rule='C20.GRD.5'):
     """"Constructed once": the loader falls back to handing the bare module name to dlopen(), and dlopen("") is not a
     failure - it returns the main program, whose global scope already holds the constructors of every loaded module,
@@ -671,6 +720,7 @@ def run(P, R, tier):
     unload(P, R)
     reverse_list_removal(P, R)
     names_nonempty(P, R)
+    loader_details(P, R)
     one_key(P, R)
     loading_context(P, R)
     edge_forms(P, R)
